@@ -168,6 +168,14 @@ func (eng *Engine) checkProperty(prop, tier string) int {
 		}
 	}
 	solveAll(all, work, *flagTimeout, seedFromEnv(), *flagPar, cache)
+	xChecked, xConfirmed := 0, 0
+	var xDisagreed []*Obligation
+	if tier == "thorough" {
+		xChecked, xConfirmed, xDisagreed = crossCheck(all, work, 20, seedFromEnv(), *flagPar)
+		for _, o := range xDisagreed {
+			o.Status = "unknown" // two solvers contradict each other: not counted as discharged
+		}
+	}
 
 	isKnown := func(name string) *KnownFinding {
 		for i := range known {
@@ -378,7 +386,13 @@ func (eng *Engine) checkProperty(prop, tier string) int {
 			"samples":                   samples,
 			"obligation_list":           oj,
 			"unmodelled":                unm,
-			"bounded":                   []string{},
+			"bounded":                   boundedList(execs),
+			"crosscheck": map[string]interface{}{
+				"explanation":  "thorough tier only: every solver-discharged obligation is re-solved by another solver of the portfolio (20 s); confirmed = independent unsat, the rest stayed undecided there; a sat answer would be reported as a violation",
+				"resolved":     xChecked,
+				"confirmed":    xConfirmed,
+				"disagreement": len(xDisagreed),
+			},
 			"missing_expected":          missing,
 		},
 		"assumptions": standingAssumptions(),
@@ -617,4 +631,18 @@ func TestH2VCHuffmanTree(t *testing.T) {
 		o.Status, o.Output = "unknown", truncate(string(out), 1500)
 	}
 	return o
+}
+
+func boundedList(execs []*FuncExec) []string {
+	out := []string{}
+	for _, fx := range execs {
+		if fx.con == nil {
+			continue
+		}
+		for _, b := range fx.con.Bounded {
+			out = append(out, shortFuncName(fx.fn)+"/"+b)
+		}
+	}
+	sort.Strings(out)
+	return out
 }
